@@ -538,3 +538,24 @@ Proof.
   destruct (nth_in_or_default (Z.to_nat i - Z.to_nat (M + 1)) (skipn (Z.to_nat (M + 1)) fat) 0) as [Hn|Hn]; [|exact Hn].
   specialize (H _ Hn). lia.
 Qed.
+
+(** * [geo] is what [parse_header] computes: for a state whose geometry record is the one the (regenerated) [parse_header] derives from its boot
+    sector, the region facts follow from elementary facts about the boot-sector fields *)
+Theorem geo_of_header (s:st) :
+  s_p s = set_bytes_per_cluster (Gen.parse_header_geometry pf_init (s_h s)) (BPB_BytsPerSec (s_h s) * BPB_SecPerClus (s_h s)) ->
+  0 < BPB_BytsPerSec (s_h s) -> 0 < BPB_SecPerClus (s_h s) -> 512 <= BPB_RsvdSecCnt (s_h s) * BPB_BytsPerSec (s_h s) ->
+  0 <= get_fat_size_count (s_h s) -> 0 <= BPB_NumFATs (s_h s) -> 0 <= BPB_RootEntCnt (s_h s) ->
+  first_data_sector (s_p s) <= total_sectors s ->
+  geo s.
+Proof.
+  intros Hp Hb Hc Hr Hf Hn He Ht. unfold geo, bpc, fat_start, fat_bytes, root_addr in *. unfold bps in *. rewrite Hp in *.
+  unfold Gen.parse_header_geometry in *. cbv zeta in *.
+  cbn [bytes_per_cluster root_dir_sector root_dir_sectors first_data_sector _fat_size set_bytes_per_cluster set_fat_type set_first_data_sector set_root_dir_sector
+       set_root_dir_sectors set__fat_size pf_init] in *.
+  set (F := get_fat_size_count (s_h s)) in *. set (B := BPB_BytsPerSec (s_h s)) in *. set (N := BPB_NumFATs (s_h s)) in *. set (R := BPB_RsvdSecCnt (s_h s)) in *.
+  assert (Hrds : 0 <= (BPB_RootEntCnt (s_h s) * Gen.FAT_DIRECTORY_LAYOUT_size + (B - 1)) / B).
+  { apply Z.div_pos; [|lia]. assert (Hsz : 0 <= Gen.FAT_DIRECTORY_LAYOUT_size) by (vm_compute; discriminate).
+    pose proof (Z.mul_nonneg_nonneg _ _ He Hsz) as Hm. apply Z.add_nonneg_nonneg; [exact Hm|]. clear - Hb. unfold B in *. lia. }
+  clear Hp. split; [lia|]. split; [lia|]. split; [ring|]. split; [lia|]. split; [apply Z.mul_nonneg_nonneg; lia|]. split; [lia|].
+  split; [apply Z.eq_le_incl; ring|]. split; [exact Hrds|]. split; [apply Z.eq_le_incl; ring|exact Ht].
+Qed.
